@@ -5,7 +5,10 @@ CLAIMS = {'C03': {'text': 'Hazards of the geometry/container layer are enumerate
                  'upper bounds, axis), construction of cropped views only behind check_crop_box, '
                  "unchecked row/column slices equal the view's own rectangle, nearest-neighbour "
                  'index clamp adequacy, bounded unchecked reads of static tables, every unwrap '
-                 'classified, guard adequacy of every SIMD helper load (bytes read vs. elements '
+                 'classified, CroppedSrcImageView::crop_unchecked reached only by already '
+                 'validated or literal whole-view boxes, every get_unchecked outside the kernel '
+                 'modules is one of the 8 justified sites (a float-truncated unclamped index is a '
+                 'violation), guard adequacy of every SIMD helper load (bytes read vs. elements '
                  'the dominating guard / chunk loop leaves), precision tables without holes, '
                  'target-feature closure of dispatcher arms; in the thorough tier also NEON/WASM '
                  'configurations and type-level witnesses (unsafe set_cpu_extensions, sealed '
@@ -27,8 +30,10 @@ CLAIMS = {'C03': {'text': 'Hazards of the geometry/container layer are enumerate
                  'check alignment; from_buffer variants go through the alignment helper (head must '
                  'be empty); every aggregate of a cropped view is dominated by the success edge of '
                  'check_crop_box with matching field roles; all arithmetic asserts of crop_box.rs '
-                 'and images/*.rs. The converse (nothing inside is rejected) is only covered '
-                 'through the exact forms recognised; unrecognised forms become UNDECIDED.',
+                 'and images/*.rs.; crop_unchecked is never handed a box that comes from the '
+                 'options (user crop, fit-into-destination, whole-image default) without passing '
+                 'through crop. The converse (nothing inside is rejected) is only covered through '
+                 'the exact forms recognised; unrecognised forms become UNDECIDED.',
          'note': 'Accepted fact forms are enumerated in fircheck/engines/validators.py.',
          'technique': 'static analysis: guard-fact entailment on Ok-return paths (MIR), closure '
                       'inlining for checked_mul/map_or, dominance of constructors by validators'},
@@ -40,8 +45,10 @@ CLAIMS = {'C03': {'text': 'Hazards of the geometry/container layer are enumerate
                  'group-of-N row loop of the per-format wrappers is followed by a tail loop over '
                  'the rows height - height % N.., so no destination row is left out; mutable '
                  'cropped views hand out only rows top+start.. limited by height-start and columns '
-                 "[left, left+width). Does NOT decide that a kernel's inner column loops visit "
-                 'every column.',
+                 '[left, left+width).; where do_convolution falls back to the copy routine and '
+                 'ignores its result, the conditions of that arm establish the exact equalities '
+                 "the copy needs (so it cannot fail silently). Does NOT decide that a kernel's "
+                 'inner column loops visit every column.',
          'note': 'Leaf write event = ImageViewMut::{iter_rows_mut,iter_N_rows_mut,split_by_*_mut}; '
                  'what a kernel does with the rows is not analysed. Zero-size guards are '
                  'recognised as comparisons of width()/height()/crop fields with 0.',
@@ -63,8 +70,13 @@ CLAIMS = {'C03': {'text': 'Hazards of the geometry/container layer are enumerate
                  'mul_div_255/65535) computes round(c*a/max) by the exact idiom (t + (t >> k)) >> '
                  'k, t = c*a + 2^(k-1) (normal form of the lane expression DAG; the classical '
                  'wrong variants are violations, other forms undecided); a per-lane primitive '
-                 'returns its input unchanged only under an all-lanes predicate. Does NOT decide '
-                 'faithfulness of the reciprocal tables nor the float paths.',
+                 'returns its input unchanged only under an all-lanes predicate.; in the 16 x86 '
+                 'vector primitives every product / quotient combines values of one pixel only, '
+                 "result byte i comes from pixel i // size and its own component (and that pixel's "
+                 "alpha), alpha bytes are the argument's (provenance tags through shuffles, masks, "
+                 'packs, blends); two-image and in-place variants of the 16-bit division use the '
+                 'same primitive family (float quotient vs. fixed-point reciprocal). Does NOT '
+                 'decide faithfulness of the reciprocal tables nor the float paths.',
          'note': 'Intrinsic classification tables (saturating / arithmetic / load) are in '
                  'fircheck/engines/deps.py; lane bounds assume alpha >= 1 (alpha == 0 is the '
                  "kernels' documented indefinite-value path).",
@@ -78,7 +90,9 @@ CLAIMS = {'C03': {'text': 'Hazards of the geometry/container layer are enumerate
                  'aligned middle part and slices exactly width*height pixels for an image of the '
                  "same dimensions; the premultiply scratch has the multiplied view's size. Does "
                  "NOT decide that writers fill every pixel (C05's kernel-internal part) nor "
-                 'compares runs.',
+                 'compares runs; no branch on the resize path depends on len()/capacity() of a '
+                 'scratch buffer except the grow test (a reused Resizer takes the same code path '
+                 'as a fresh one).',
          'note': 'Writer = callee with a must-write summary (C05) on the scratch parameter.',
          'technique': 'static analysis: write-before-read typestate via dominators + must-write '
                       'summaries; structural matching of the sizing expression (MIR)'},
@@ -88,10 +102,11 @@ CLAIMS = {'C03': {'text': 'Hazards of the geometry/container layer are enumerate
                  'crop box) and is followed on every path by exactly one divide of the '
                  'destination; no divide anywhere else; other convolutions read the original view; '
                  'Nearest/copy reach no alpha code; the five MulDiv pixel-type tables equal the '
-                 'set of AlphaMulDiv impls.; no SIMD multiply/divide primitive returns its input '
-                 'early under a predicate that holds as soon as one lane matches (any-lane fast '
-                 'path). Does NOT decide the metamorphic equalities (independence of colours under '
-                 'alpha 0).',
+                 'set of AlphaMulDiv impls.; the premultiply covers the whole source view and '
+                 'precedes every read of the scratch image; no SIMD multiply/divide primitive '
+                 'returns its input early under a predicate that holds as soon as one lane matches '
+                 '(any-lane fast path). Does NOT decide the metamorphic equalities (independence '
+                 'of colours under alpha 0).',
          'note': 'Anchors by def-path (resample_convolution, multiply_alpha_typed, do_convolution, '
                  'divide_alpha*); unrecognised shapes become UNDECIDED.',
          'technique': 'static analysis: dominance / must-pass-through typestate on MIR CFG, '
@@ -106,8 +121,10 @@ CLAIMS = {'C03': {'text': 'Hazards of the geometry/container layer are enumerate
                  'implementations and the cropped views forward start+top / start+left on the '
                  'matching axis; the aliasing handle UnsafeImageMut is created only inside the '
                  'default mutable splits and is the only unsafe Send/Sync impl (witnesses W3, W5 '
-                 'in the thorough tier). Does NOT decide disjointness of the band rectangles '
-                 '(loop-carried sums) nor anything about scheduling at run time.',
+                 'in the thorough tier).; both images of a two-image split go through split_by_* '
+                 '(hand-placed bands at offset + i*total/n are a violation). Does NOT decide '
+                 'disjointness of the band rectangles (loop-carried sums) nor anything about '
+                 'scheduling at run time.',
          'note': 'Schedule independence is argued structurally: bands are disjoint views created '
                  'by the splits (C14) and each band runs the sequential operation; the arithmetic '
                  'heart (part sizes sum to the band) is not proved.',
@@ -120,8 +137,10 @@ CLAIMS = {'C03': {'text': 'Hazards of the geometry/container layer are enumerate
                  'in the thorough tier); contiguous containers yield rows of exactly self.width '
                  'pixels from start_row*self.width, cropped views yield [left, left+width) of rows '
                  'top+start_row bounded by height; a cropped view overrides no other row iterator '
-                 'in a way that mixes its integer offset into a floating-point row position; the '
-                 '15 dynamic entry points do no pixel processing of their own; inside kernels no '
+                 'in a way that mixes its integer offset into a floating-point row position; all '
+                 'iter_rows_with_step implementations derive the row index from the floating-point '
+                 'position in the same way (all accumulate or all multiply by the index); the 15 '
+                 'dynamic entry points do no pixel processing of their own; inside kernels no '
                  'align_to with a stricter alignment than the row element and no pointer '
                  'inspection (address independence). Does NOT decide that the specialised '
                  'overrides (iter_rows_with_step, slice splits) equal the trait defaults, nor any '
@@ -141,7 +160,9 @@ CLAIMS = {'C03': {'text': 'Hazards of the geometry/container layer are enumerate
                  'slice-based splits cut rows of self.width pixels; UnsafeImageMut handles are '
                  'confined to the default mutable splits; all arithmetic asserts in split code '
                  'classified. Does NOT decide that part sizes differ by at most one and sum to the '
-                 'band (loop-carried arithmetic).',
+                 'band (loop-carried arithmetic); every part a split builds itself is placed at a '
+                 'running sum of the previous sizes (index times own size is a violation when '
+                 'sizes differ).',
          'note': 'Exact-tiling arithmetic inside the loops is listed as UNDECIDED obligations.',
          'technique': 'static analysis: guard-fact entailment on Some-return paths, loop structure '
                       '(dominators/natural loops), argument-role comparison across wrappers',
@@ -155,7 +176,9 @@ CLAIMS = {'C03': {'text': 'Hazards of the geometry/container layer are enumerate
                  'do_convolution writes on every non-degenerate path (incl. the no-pass arm).; the '
                  'nearest pre-step of SuperSampling is taken only under min(width_scale, '
                  'height_scale)/multiplicity > c >= 1, i.e. never when one dimension already '
-                 'matches. Bit equality itself is not decided.',
+                 "matches.; the arm that skips both passes and ignores the copy routine's result "
+                 "establishes exactly the copy's success conditions; crate-local predicates in "
+                 'these decisions are inlined one level. Bit equality itself is not decided.',
          'note': 'Facts are branch conditions on dominating edges (no path enumeration).',
          'technique': 'static analysis: edge-dominance facts + must-write summaries on MIR'},
  'C01': {'text': 'Decided on all paths: the geometry formulas of precompute_coefficients are, as '
@@ -196,13 +219,14 @@ CLAIMS = {'C03': {'text': 'Hazards of the geometry/container layer are enumerate
  'C15': {'text': 'Decides for fit_src_into_dst_size: left = (width - crop_width)*centering.0 and '
                  'top = (height - crop_height)*centering.1 as polynomial functions; left depends '
                  'on centering.0 and the width margin only, top on centering.1 and the height '
-                 'margin only; both centering components are clamped to [0,1]; on each of the '
-                 'three ratio branches one crop dimension is the full source dimension; '
-                 'get_crop_box passes (src w, src h, dst w, dst h) in order.; a crop dimension '
-                 'computed from the ratios is assigned only under a strict ratio comparison (or '
-                 'after the approximately-equal branch) or clamped, so fl(ratio*height) cannot '
-                 'exceed the source width. Does NOT decide aspect accuracy nor sizes beyond 2^26 '
-                 'per side.',
+                 'margin only; both centering components are clamped to [0,1] inside '
+                 'fit_src_into_dst_size itself (a raw caller value is a violation: the function '
+                 'and the enum variant are public); on each of the three ratio branches one crop '
+                 'dimension is the full source dimension; get_crop_box passes (src w, src h, dst '
+                 'w, dst h) in order.; a crop dimension computed from the ratios is assigned only '
+                 'under a strict ratio comparison (or after the approximately-equal branch) or '
+                 'clamped, so fl(ratio*height) cannot exceed the source width. Does NOT decide '
+                 'aspect accuracy nor sizes beyond 2^26 per side.',
          'note': 'Local names crop_width/crop_height/centering are anchors (CHECK-ERROR/UNDECIDED '
                  'if renamed).',
          'technique': 'static analysis: polynomial normal form + data-dependence and branch-wise '
@@ -211,13 +235,15 @@ CLAIMS = {'C03': {'text': 'Hazards of the geometry/container layer are enumerate
                  'the table-entry expression of MappingTable::new is non-decreasing in the index '
                  'for any non-decreasing transfer function (piecewise abstract interpretation over '
                  'monotonicity x interval); map_with_gaps is called with gap step N exactly in the '
-                 'arm for N components and sends the alpha position through into_component, '
-                 'everything else through the table; all 16 map_image calls are dominated by the '
-                 'width and height comparisons.; each transfer function maps 0 to 0 and 1 to 1, '
-                 'its pieces meet at every breakpoint (jump <= 1e-6; > 2 16-bit steps is a '
-                 'violation) and the backward function undoes the forward one at the breakpoints '
-                 '(interval evaluation at constant points). Does NOT decide that every entry '
-                 'equals the rounded transfer function nor the 8->16->8 round trip as such.',
+                 'arm for N components (or, when the step is chosen by pixel type, every 8/16-bit '
+                 'type with alpha has an arm with its component count) and sends the alpha '
+                 'position through into_component, everything else through the table; all 16 '
+                 'map_image calls are dominated by the width and height comparisons.; each '
+                 'transfer function maps 0 to 0 and 1 to 1, its pieces meet at every breakpoint '
+                 '(jump <= 1e-6; > 2 16-bit steps is a violation) and the backward function undoes '
+                 'the forward one at the breakpoints (interval evaluation at constant points). '
+                 'Does NOT decide that every entry equals the rounded transfer function nor the '
+                 '8->16->8 round trip as such.',
          'note': 'powf/exp/round/clamp transfer functions are part of the trusted tables; const '
                  'generic SIZE is assumed >= 2.',
          'technique': 'static analysis: abstract interpretation (monotonicity x interval, input '
@@ -228,7 +254,10 @@ CLAIMS = {'C03': {'text': 'Hazards of the geometry/container layer are enumerate
                  'negative half by a negative constant: two known findings; wrapping narrowings); '
                  'the typed entry point writes only after both dimension equalities; W4 '
                  '(thorough): different component counts do not type-check. Endpoint values and '
-                 'widening round trips are NOT decided.',
+                 'widening round trips are NOT decided; each widening round trip (u8->u16, '
+                 'u8->i32, u8->f32, u16->i32, u16->f32 and back) is the identity on the whole '
+                 'narrow range, decided from the composed form floor((a*v+b)/d) at the ends of the '
+                 'range.',
          'note': "Verdict 'decreasing' needs a non-degenerate output interval on a non-degenerate "
                  'input piece.',
          'technique': 'static analysis: abstract interpretation (monotonicity x interval) on MIR + '
@@ -267,15 +296,21 @@ CLAIMS = {'C03': {'text': 'Hazards of the geometry/container layer are enumerate
                  "destination chunk leaves (load widths derived from the helpers' bodies); the "
                  'rounding constants that reach each final normalisation total exactly half an '
                  'output unit in every lane (lane-level rounding budget through horizontal adds, '
-                 'extractions, stores/reloads and helper calls). Bit equality of the computed '
-                 'pixels is NOT decided.',
+                 'extractions, stores/reloads and helper calls).; in every x86 kernel each '
+                 'multiply pairs source pixel j of the current coefficient chunk with coefficient '
+                 'j (vertical kernels: source row r with coefficient r), whole components, one row '
+                 'and one component per accumulator lane, every coefficient used exactly once '
+                 '(byte-level symbolic evaluation of 244 multiply operands through loads, shuffle '
+                 'masks, unpacks and broadcasts; 237 followed); the source cursor advances by '
+                 'exactly the chunk size. Bit equality of the computed pixels is NOT decided.',
          'note': 'Trusted: rustc type checker/MIR, firdrv, back-end module naming '
                  '(avx2/sse4/neon/wasm32/native). Numerical equality of kernels is out of reach of '
                  'this technique.',
          'technique': 'static analysis: dispatch-table extraction from MIR SwitchInt + call-graph '
                       'feature closure + interval analysis of the precision selector + '
                       'data-dependence over expression DAGs + available-fact guard adequacy of '
-                      'loads + lane-level abstract interpretation of accumulator rounding content'}}
+                      'loads + lane-level abstract interpretation of accumulator rounding content '
+                      '+ byte-level symbolic evaluation of SIMD operands (lane pairing)'}}
 
 NOT_APPLICABLE = {
     "C10": "partition of unity of quantised runtime weight vectors is an arithmetic identity over "
